@@ -13,7 +13,7 @@ func init() {
 		ID:          "C18",
 		Run:         runC18,
 		MinObl:      30,
-		Explanation: "Decided: R1 error discipline — on every success exit of every handler-interface implementation and endpoint function, the error result of each storage-interface call executed on the path is known nil (tested and taken on the nil edge); named tolerations: errors.Is(err, ErrNotFound) in the refresh-reuse branch and in the PKCE clean-up, ErrNotFound/ErrInactiveToken in RevokeToken's mapper, RevokeToken's first discovery lookup; R2 transaction typestate for every function that calls MaybeBeginTx: begin failure exits without touching the transaction; every success exit after begin has exactly one MaybeCommitTx whose error is nil and no rollback; every fail exit after a successful begin has executed MaybeRollbackTx; commit is never reached after a storage write of the transaction returned non-nil; no storage write follows commit or rollback; begin/commit/rollback take the same storage term and commit/rollback take the context begin returned; R3 NewAccessResponse returns a non-nil responder only if every PopulateTokenEndpointResponse result was nil or ErrUnknownRequest and access token and token type are set; R4 in the refresh-issue function a storage error satisfying errors.Is(·, ErrSerializationFailure) exits as an ErrInvalidRequest-derived (retryable) error; R5 validate-phase functions mutate storage only in their replay/reuse branches (jti registration exempt). NOT decided: crash points, fault pairs, what a retry observes, atomicity of the store's own rollback.",
+		Explanation: "Decided: R1 error discipline — on every success exit of every handler-interface implementation and endpoint function, the error result of each storage-interface call executed on the path is known nil (tested and taken on the nil edge); named tolerations: errors.Is(err, ErrNotFound) in the refresh-reuse branch and in the PKCE clean-up, ErrNotFound/ErrInactiveToken in RevokeToken's mapper, RevokeToken's first discovery lookup; R2 transaction typestate for every function that calls MaybeBeginTx: begin failure exits without touching the transaction; every success exit after begin has exactly one MaybeCommitTx whose error is nil and no rollback; every fail exit after a successful begin has executed MaybeRollbackTx; commit is never reached after a storage write of the transaction returned non-nil; no storage write follows commit or rollback; begin/commit/rollback take the same storage term and commit/rollback take the context begin returned; R3 NewAccessResponse returns a non-nil responder only if every PopulateTokenEndpointResponse result was nil or ErrUnknownRequest and access token and token type are set; R4 in the refresh-issue function a storage error satisfying errors.Is(·, ErrSerializationFailure) exits as an ErrInvalidRequest-derived (retryable) error; R5 validate-phase functions mutate storage only in their replay/reuse branches (jti registration exempt). R1 also: a storage failure is never returned as ErrUnknownRequest (which the endpoint layer treats as 'handler not responsible' and skips), except for the documented no-such-session cases; R6 RFC6749Error.Is reports identity only if both the error name and the status code are equal (several values share the name 'error'). NOT decided: crash points, fault pairs, what a retry observes, atomicity of the store's own rollback.",
 	})
 }
 
@@ -73,6 +73,7 @@ func runC18(c *Ctx) {
 	c18R3(c)
 	c18R4(c)
 	c18R5(c)
+	c18ErrorIdentity(c)
 }
 
 // storageReaching: inline only callees from which a storage call is reachable
@@ -176,6 +177,29 @@ func c18R1(c *Ctx) {
 				}
 				bad[key] = p
 				why[key] = fmt.Sprintf("%s (%s): a success exit is reachable although its error result is not known nil", e.Name, c.P.Pos(e.Instr.Pos()))
+			}
+		}
+		// fail exits: a storage failure must not be reported as "this handler is not responsible"
+		// (ErrUnknownRequest), because the endpoint layer skips that error and carries on
+		for _, p := range ex.Paths {
+			if p.Kind != "return" || p.Classify() != ExitFail || errorRoot(p.ErrRet()) != "fosite.ErrUnknownRequest" {
+				continue
+			}
+			for _, e := range p.Events {
+				if !isStorageCall(e) {
+					continue
+				}
+				er := errResult(e)
+				if er == nil || !p.NonNil(er) || !mentionsTerm(p.ErrRet(), er) {
+					continue
+				}
+				if p.Holds(atomB(call("errors.Is", er, gl("handler/openid.ErrNoSessionFound"))), true) || p.Holds(atomB(call("errors.Is", er, gl("fosite.ErrNotFound"))), true) {
+					continue // "no such session": the documented way of saying the grant is not an OpenID Connect one
+				}
+				key := e.Name
+				seen[key] = true
+				bad[key] = p
+				why[key] = fmt.Sprintf("%s (%s): its failure is returned as ErrUnknownRequest, which the endpoint treats as 'handler not responsible' and ignores", e.Name, c.P.Pos(e.Instr.Pos()))
 			}
 		}
 		for k := range seen {
@@ -467,4 +491,49 @@ func c18R5(c *Ctx) {
 	if n < 5 {
 		c.RoleUnmatched(rule, role, "at least 5 HandleTokenEndpointRequest implementations")
 	}
+}
+
+// C18.R6 — error identity. Handlers and endpoints classify failures with
+// errors.Is against the package's error values (ErrUnknownRequest = "not my
+// request, skip", ErrSerializationFailure = "retry", ...). Several of them share
+// the ErrorField "error" and differ only in the status code, so
+// RFC6749Error.Is must compare both fields; comparing the name alone makes a
+// serialization conflict look like ErrUnknownRequest and the endpoint skips it.
+func c18ErrorIdentity(c *Ctx) {
+	const rule, role = "C18.R6", "error-identity"
+	fn := c.P.Func("(" + pkgRoot + ".RFC6749Error).Is")
+	if fn == nil {
+		fn = c.P.Func("(*" + pkgRoot + ".RFC6749Error).Is")
+	}
+	if fn == nil {
+		c.RoleUnmatched(rule, role, "(RFC6749Error).Is")
+		return
+	}
+	ex := c.Explore(fn, ExploreConfig{}, "errors")
+	if !c.complete(ex, rule, role, fn) {
+		return
+	}
+	ok, n := true, 0
+	var w *Path
+	for _, p := range ex.Paths {
+		if p.Kind != "return" || len(p.Rets) != 1 || p.Rets[0].Key() != tTrue.Key() {
+			continue
+		}
+		n++
+		both := map[string]bool{}
+		for _, f := range p.Facts {
+			if f.Atom.Kind == "EQ" && f.Pol {
+				for _, nm := range []string{"ErrorField", "CodeField"} {
+					a, b := f.Atom.A, f.Atom.B
+					if a.Op == "field" && a.Name == nm && b.Op == "field" && b.Name == nm {
+						both[nm] = true
+					}
+				}
+			}
+		}
+		if !(both["ErrorField"] && both["CodeField"]) {
+			ok, w = false, p
+		}
+	}
+	c.Check(ok && n > 0, rule, role, fn, "name-and-code", "RFC6749Error.Is reports identity only if both the error name and the status code are equal", "true is returned with only one of them compared", w)
 }
